@@ -219,6 +219,16 @@ func (e *Engine) verifyFunc(fn *ssa.Function, fc *FuncContract) (rep *FuncReport
 		fr.args = append(fr.args, v)
 		rep.Params = append(rep.Params, paramInfo{p.Name(), v})
 	}
+	// names given in the contract header (needed for parameters the code calls "_")
+	if off := len(fn.Params) - len(fc.Params); len(fc.Params) > 0 && (off == 0 || (off == 1 && fn.Signature.Recv() != nil)) {
+		for i, hp := range fc.Params {
+			if hp.Name != "" && hp.Name != "_" {
+				if _, taken := fr.argVars[hp.Name]; !taken {
+					fr.argVars[hp.Name] = fr.args[i+off]
+				}
+			}
+		}
+	}
 	for _, fv := range fn.FreeVars {
 		v := e.freshValue(c, "fv_"+fv.Name(), fv.Type())
 		c.Assume(e.typeInv(v, st.alloc))
